@@ -1,5 +1,6 @@
 CONFIG = dict(
-    coqfiles=["Props/C08.v", "Props/StoreCombined.v"],
+    coqfiles=["Props/C08.v", "Props/StoreCombined.v", "Props/C08Q.v"],
+    sub=["C08Q"],
     n_quick=1500, n_thorough=60000, workers_quick=8,
     rule="random store geometries (block size 16-64, sector 1/4/16, old 0-3, current 0-3, new 1-3, immutable and mutable growth, in-memory or block-device allocator with 1-3 spare blocks, "
          "flat keys with/without instance or hierarchical, validating CAS or raw read factory) x schedules of 15-45 (thorough: 20-100) atomic steps: uploads fed chunk by chunk through a gated source "
@@ -8,5 +9,5 @@ CONFIG = dict(
     modelled=["the key-location index is abstracted to 'newest valid stored location per key' (C06 proves the refinement absent reported discards; the harness uses a 9973-entry table)",
               "sector-level device writes of the block-device allocator are not modelled here (block contents are byte arrays written per upload chunk)",
               "SHA-256 as identity of content (an upload is valid iff its bytes equal the object's canonical content)",
-              "schedules at the granularity of lock-protected sections / upload chunks / slicer hand-off; Go sync primitives trusted"],
+              "schedules at the granularity of lock-protected sections / upload chunks / slicer hand-off; Go sync primitives trusted; integrity callbacks landing INSIDE a Put (between the sub-steps of findBlockWithSpace) are the subject of the sub-check C08Q (harness/c08q.go, Store/Quarantine.v, Props/C08Q.v), whose cases are folded into this check"],
 )
